@@ -576,6 +576,54 @@ def run_chain_ecc(e, ob, extra_info, timeout=60):
 
     def is_ec(key):
         return any(pat in key[0] for pat in KIND_OF_NAME)
+    # candidate limb vectors: every window of n consecutive exposed cells that are limb-bounded (junk windows
+    # are filtered per group: a vector must lie inside the group and be aligned with its coefficients)
+    pool = []
+
+    def add_vec(v):
+        if v not in pool and not any(isinstance(x, int) for x in v):
+            pool.append(v)
+    for atoms in ([e.v(cc) for cc in e.s.ins], [e.v(cc) for cc in e.s.outs]):
+        for i in range(0, len(atoms) - n + 1):
+            v = tuple(atoms[i:i + n])
+            if all(not isinstance(x, int) and e.bound(x) <= base for x in v):
+                add_vec(v)
+
+    def linear_lemmas(entries):
+        # residue-level restatement of purely linear groups (normalisations): R == sum kk*val(vector) + const
+        # (mod m) coefficient-wise (ground), hence the same congruence on residues. Saves the main query the
+        # large-coefficient integer reasoning; R = m*t itself stays in place.
+        for key, R, guard, s, vac in entries:
+            if guard != "true" or any(len(k) > 1 for k in R):
+                continue
+            dd = decompose_linear(e, {k[0]: c for k, c in R.items() if k}, R.get((), 0), pool)
+            if dd is None:
+                continue
+            dec, c0 = dd
+            b0 = (None, c0)
+            r = lincomb(e, sorted(((kk, res(e, v)) for kk, v in dec), key=lambda t: str(t[1])), b0[1] - sum(kk for kk, _ in dec))
+            e.lines.append(f"(assert (= {r if not isinstance(r, int) else I(r)} 0))")
+            records.append(("L", f"{key[0]}@{key[1]}", "linear group on residues: " + " ".join(f"{kk:+d}*res(v{pool.index(v)})" for kk, v in dec), 0))
+            # lemma cut for zero tests of a well-formed vector z of the group (zero has a unique well-formed
+            # representation):  z is limb-wise the representation of zero  <=>  the rest of the group sums to 0 mod m
+            lb = int(e.extra["log2_base"])
+            msl = m.bit_length() - (n - 1) * lb
+            zl = [((m - 1) >> (lb * i)) & ((1 << lb) - 1) for i in range(n)]
+            for kk, v in dec:
+                if kk not in (1, -1) or v not in getattr(e, "_fecc_newvecs", ()) or not all(e.bound(a) <= (1 << (lb if i < n - 1 else msl)) for i, a in enumerate(v)):
+                    continue
+                others = sorted(((-kk * k2, res(e, v2)) for k2, v2 in dec if v2 != v), key=lambda t: str(t[1]))
+                rr = lincomb(e, others, -kk * (c0 - sum(k2 for k2, _ in dec)))     # res(v) == rr (mod m)
+                e.zero_rep_lemma(list(v))
+                zeq = "(and " + " ".join(f"(= {a} {zl[i]})" for i, a in enumerate(v)) + ")"
+                sem = f"(= {rr if not isinstance(rr, int) else I(rr)} 0)"
+                miss = prove_cuts(e, [(f"zero-test of v{pool.index(v)} in {key[0]}@{key[1]}", f"(= {zeq} {sem})")], timeout=max(10, timeout // 3))
+                records.append(("Z", f"{key[0]}@{key[1]}", f"zero-test cut for v{pool.index(v)}: {'not proved' if miss else 'proved'}", 0))
+                if not miss:
+                    b = discover_bit(e, ob, v, zl, zeq, sem, hon_of, extra_info, timeout)
+                    records.append(("Z", f"{key[0]}@{key[1]}", f"bit cell deciding the zero test of v{pool.index(v)}: {b}", 0))
+
+
     todo = []      # (key, R, guard, s, vacuity)
     # for the EC groups the chain's own hypothesis lines (E = 0 over 256-bit coefficients, R = m*t) are not
     # handed on: the residue form below says the same modulo m (dropping hypotheses is sound)
@@ -585,6 +633,9 @@ def run_chain_ecc(e, ob, extra_info, timeout=60):
             Rs = run_view(ks, {}, "true", keep=lambda k: not is_ec(k))
             for k in ks:
                 todo.append((k, Rs[k], "true", 1, True))
+            if not is_ec(ks[0]):
+                # before the condition cells are analysed: their domain follows from the zero-test bits
+                linear_lemmas([t_ for t_ in todo if t_[0] in ks])
     for c, keys in cond_groups.items():
         vals = cond_values(e, ob, c, hon_of.get(c), timeout, extra_info)
         if not vals:
@@ -601,19 +652,6 @@ def run_chain_ecc(e, ob, extra_info, timeout=60):
                     for k in ks:
                         todo.append((k, Rs[k], guard, s, vac))
     # ---- (G): recognition. pass 1: vectors from product blocks of every group -----------------------
-    pool = []
-
-    def add_vec(v):
-        if v not in pool and not any(isinstance(x, int) for x in v):
-            pool.append(v)
-    Iat = [e.v(cc) for cc in e.s.ins]
-    Oat = [e.v(cc) for cc in e.s.outs]
-    for atoms in (Iat, Oat):
-        # exposed limb vectors: windows of n consecutive exposed cells that are limb-bounded
-        for i in range(0, len(atoms) - n + 1):
-            v = tuple(atoms[i:i + n])
-            if all(not isinstance(x, int) and e.bound(x) <= base for x in v):
-                add_vec(v)     # every window: junk candidates are filtered per group (must lie inside the group)
     peeled = {}
     for key, R, guard, s, vac in todo:
         nm = key[0]
@@ -647,38 +685,6 @@ def run_chain_ecc(e, ob, extra_info, timeout=60):
             lst.sort()
             if len(lst) == n and [ex for ex, _ in lst] == list(range(n)):
                 add_vec(tuple(a for _, a in lst))
-    # residue-level restatement of purely linear groups (normalisations): R == sum kk*val(vector) + const
-    # (mod m) coefficient-wise (ground), hence the same congruence on residues. Saves the main query the
-    # large-coefficient integer reasoning; R = m*t itself stays in place.
-    for key, R, guard, s, vac in todo:
-        if guard != "true" or any(len(k) > 1 for k in R):
-            continue
-        dd = decompose_linear(e, {k[0]: c for k, c in R.items() if k}, R.get((), 0), pool)
-        if dd is None:
-            continue
-        dec, c0 = dd
-        b0 = (None, c0)
-        r = lincomb(e, sorted(((kk, res(e, v)) for kk, v in dec), key=lambda t: str(t[1])), b0[1] - sum(kk for kk, _ in dec))
-        e.lines.append(f"(assert (= {r if not isinstance(r, int) else I(r)} 0))")
-        records.append(("L", f"{key[0]}@{key[1]}", "linear group on residues: " + " ".join(f"{kk:+d}*res(v{pool.index(v)})" for kk, v in dec), 0))
-        # lemma cut for zero tests of a well-formed vector z of the group (zero has a unique well-formed
-        # representation):  z is limb-wise the representation of zero  <=>  the rest of the group sums to 0 mod m
-        lb = int(e.extra["log2_base"])
-        msl = m.bit_length() - (n - 1) * lb
-        zl = [((m - 1) >> (lb * i)) & ((1 << lb) - 1) for i in range(n)]
-        for kk, v in dec:
-            if kk not in (1, -1) or v not in getattr(e, "_fecc_newvecs", ()) or not all(e.bound(a) <= (1 << (lb if i < n - 1 else msl)) for i, a in enumerate(v)):
-                continue
-            others = sorted(((-kk * k2, res(e, v2)) for k2, v2 in dec if v2 != v), key=lambda t: str(t[1]))
-            rr = lincomb(e, others, -kk * (c0 - sum(k2 for k2, _ in dec)))     # res(v) == rr (mod m)
-            e.zero_rep_lemma(list(v))
-            zeq = "(and " + " ".join(f"(= {a} {zl[i]})" for i, a in enumerate(v)) + ")"
-            sem = f"(= {rr if not isinstance(rr, int) else I(rr)} 0)"
-            miss = prove_cuts(e, [(f"zero-test of v{pool.index(v)} in {key[0]}@{key[1]}", f"(= {zeq} {sem})")], timeout=max(10, timeout // 3))
-            records.append(("Z", f"{key[0]}@{key[1]}", f"zero-test cut for v{pool.index(v)}: {'not proved' if miss else 'proved'}", 0))
-            if not miss:
-                b = discover_bit(e, ob, v, zl, zeq, sem, hon_of, extra_info, timeout)
-                records.append(("Z", f"{key[0]}@{key[1]}", f"bit cell deciding the zero test of v{pool.index(v)}: {b}", 0))
     # pass 3: compare with the textbook identity, emit the residue-form hypothesis
     for key, R, guard, s, vac in todo:
         nm, row = key
@@ -832,7 +838,7 @@ def prove_cuts(e, cuts, timeout=60):
         if f in ("true",):
             continue
         st, t0 = "unknown", time.time()
-        for depth, tmo in ((6, max(5, timeout // 6)), (16, max(5, timeout // 3)), (None, timeout)):
+        for depth, tmo in ((6, min(10, max(5, timeout // 6))), (16, min(20, max(5, timeout // 3))), (None, timeout)):
             q = e.text([]) if depth is None else sliced_text(e, f, depth)
             r = solvers.solve(q + f"(assert (not {f}))\n", timeout=tmo)
             if ob is not None:
